@@ -191,7 +191,29 @@ func (env *Env) qualified(pkgName, name string) (Value, bool) {
 	if p == nil {
 		return nil, false
 	}
-	for _, imp := range p.Pkg.Imports() {
+	imps := append([]*types.Package(nil), p.Pkg.Imports()...)
+	// a contract may name an error sentinel of a package its own Go package
+	// does not import (e.g. os.ErrNotExist in an interface contract of types)
+	have := false
+	for _, imp := range imps {
+		if imp.Name() == pkgName {
+			have = true
+		}
+	}
+	if !have {
+		var best *types.Package
+		for _, sp := range env.e.prog.prog.AllPackages() {
+			if sp.Pkg.Name() == pkgName && !strings.Contains(sp.Pkg.Path(), "internal/") && !strings.Contains(sp.Pkg.Path(), "vendor/") {
+				if best == nil || len(sp.Pkg.Path()) < len(best.Path()) || (len(sp.Pkg.Path()) == len(best.Path()) && sp.Pkg.Path() < best.Path()) {
+					best = sp.Pkg
+				}
+			}
+		}
+		if best != nil {
+			imps = append(imps, best)
+		}
+	}
+	for _, imp := range imps {
 		if imp.Name() == pkgName {
 			obj := imp.Scope().Lookup(name)
 			if obj == nil {
